@@ -292,6 +292,7 @@ fn main() {
     let mut load: Option<String> = None;
     let mut repeat_parse = 1usize;
     let mut render = false;
+    let mut abandon: Option<usize> = None;
     for line in text.lines() {
         let mut w = line.split_whitespace();
         let Some(cmd) = w.next() else { continue };
@@ -338,6 +339,7 @@ fn main() {
             "LOAD" => load = Some(rest[0].to_string()),
             "REPEAT_PARSE" => repeat_parse = rest[0].parse().unwrap(),
             "RENDER" => render = rest[0] == "1",
+            "ABANDON" => abandon = Some(rest[0].parse().unwrap()),
             _ => panic!("unknown scenario line {line}"),
         }
     }
@@ -469,6 +471,19 @@ fn main() {
             .filter(|s| s.is_output())
             .map(|s| s.name.clone())
             .collect();
+    }
+
+    if let Some(k) = abandon {
+        // another iterator over the same test, on this thread, stepped k times and dropped (possibly in the middle of
+        // a row expansion) before the observed run starts: it must leave nothing behind
+        let r = catch_unwind(AssertUnwindSafe(|| {
+            if let Ok(mut it0) = test_case.try_iter_static() {
+                for _ in 0..k {
+                    let _ = it0.next();
+                }
+            }
+        }));
+        println!("ABANDONED {} {}", k, if r.is_ok() { "ok" } else { "panic" });
     }
 
     if mode == "static" || mode == "both" {
